@@ -8,11 +8,15 @@
   the remaining suffix, end marker when empty), the `todo!()` of fix F8 is gone, and the loader's
   path arithmetic (fix F10) is total.  The proof covers all eleven mutually recursive expression
   functions, the nine statement parsers, the import-path scanner, `_ডাইরেক্টরি` expansion, renaming
-  and splicing.  That the fuel `exprFuel`/the statement loop suffices (no hang) is decided by the
-  C12 correspondence runs (the Rust parser has no fuel: a `fuel` answer of the model against an
-  answer of the implementation is a disagreement); the native stack is KNOWN-FINDING C12-native-stack.
+  and splicing.  Termination: `expression_is_total` — the eleven expression functions always terminate within
+  `exprFuel` (every successful operand parser consumes a token, `expr_progress`; the potential 16·tokens + level
+  covers every call, `expr_fuel`).  That the statement loop's fuel suffices for whole programs with imports (module
+  tokens are spliced into the stream) is decided by the C12 / C15 correspondence runs (the Rust parser has no fuel: a
+  `fuel` answer of the model against an answer of the implementation is a disagreement); the native stack is
+  KNOWN-FINDING C12-native-stack.
 -/
 import Pakhi.Lemmas.ParseNP
+import Pakhi.Lemmas.ParseFuel
 
 namespace Pakhi
 namespace C12
@@ -50,6 +54,19 @@ theorem peek_past_end (s : PS) (h : s.rest = []) : s.peek = .eot ∧ s.peek1 = .
 
 /-- non-vacuity: a main path such as the harness uses satisfies the hypotheses -/
 example : (pathParent "/r/main.pakhi".toList).isSome = true ∧ (pathFileName "/r/main.pakhi".toList).isSome = true := by decide
+
+/-- **`expression()` is total**: on every token stream it returns an expression with the rest of the stream, or a Pakhi
+    error — it never panics and never exhausts the model's fuel (16 per remaining token + 32), i.e. it terminates -/
+theorem expression_is_total (s : PS) : (∃ e s', pExpr s = .ok (e, s')) ∨ (∃ err, pExpr s = .err err) := by
+  cases h : pExpr s with
+  | ok x => exact Or.inl ⟨x.1, x.2, rfl⟩
+  | err e => exact Or.inr ⟨e, rfl⟩
+  | panic p => exact ((expr_no_panic _).1 0 s p h).elim
+  | fuel => exact (pExpr_never_out_of_fuel s h).elim
+
+/-- and a successful `expression()` consumes at least one token -/
+theorem expression_consumes (s : PS) (e : Expr) (s' : PS) (h : pExpr s = .ok (e, s')) : s'.rest.length + 1 ≤ s.rest.length :=
+  (expr_progress _).1 0 s e s' h
 
 end C12
 end Pakhi
